@@ -749,7 +749,9 @@ def check_packing(ctx, U):
         deps = [ct.free_symbols for ct in chan_terms]
         probs, und = [], []
         for g, t in paths:
-            for g2, t2 in I.cases(t, g):
+            # split into per-channel fields first, so that the select cases of one channel are not multiplied by those of the others
+            top = [(g, t)] if (I.or_operands(t) != [t] or t.is_Add or not t.has(I.Sel)) else I.cases(t, g)
+            for g2, t2 in top:
                 if I.or_operands(t2) != [t2]:
                     ops = I.or_operands(t2)
                 elif t2.is_Add:
@@ -812,6 +814,25 @@ def check_packing(ctx, U):
             match_packed(inst, s4, [sym('v[%d]' % (4 * k)) for k in range(4)], 'cvt_uint32(vec4f)')
         except Undecided as e:
             ctx.undecided(R, inst, str(e), VEC)
+    def guarded_slot(s_, slot):
+        out = []
+        for g_, t_ in s_.values(slot):
+            out += I.cases(t_, g_)
+        return out
+
+    def sel_of(s_, slot):
+        """one term for a slot: its value, or - when the paths differ - a select over the path guards (paths partition the inputs)"""
+        if len(s_.paths) == 1:
+            return s_.value(slot)
+        vs_ = s_.values(slot)
+        if len(vs_) == len(s_.paths) and all(sp.expand(t_ - vs_[0][1]) == 0 for _, t_ in vs_[1:]):
+            return vs_[0][1]              # the same term on every path
+        cs_ = guarded_slot(s_, slot)
+        t_ = cs_[-1][1]
+        for g_, v_ in reversed(cs_[:-1]):
+            t_ = I.mk_sel(I.b_and(*g_), v_, t_)
+        return t_
+
     # ---- linear_to_srgba
     inst = 'linear_to_srgba [%s]' % U.cfg
     sg = U.summary(R, inst, 'K_srgb', RKMATH)
@@ -820,25 +841,31 @@ def check_packing(ctx, U):
     if sg is not None and sa is not None:
         n += 1
         try:
-            g1 = sg.value('ret')
+            g1 = sel_of(sg, 'ret')
             probs, und = [], []
             chans = []
             for k in range(4):
                 ck = sym('c[%d]' % (4 * k))
-                t = sa.value('out[%d]' % (4 * k))
-                chans.append(t)
+                slot = 'out[%d]' % (4 * k)
                 if k < 3:
-                    if not I.equal_guarded([((), t)], [((), g1.xreplace({f: ck}))])[0]:
+                    t = g1.xreplace({f: ck})          # the compact per-channel term (equality with the output slot is checked next)
+                    chans.append(t)
+                    if not I.equal_guarded(sa.values(slot), [((), t)])[0]:
+                        t = sel_of(sa, slot)
                         dep = sorted(map(str, t.free_symbols))
                         probs.append(('channel-%s' % 'xyz'[k], 'output channel %s is %s, expected linear_to_srgb(c.%s) (depends on %s)'
                                       % ('xyz'[k], t, 'xyz'[k], dep)))
                 else:
+                    t = sel_of(sa, slot)
+                    chans.append(t)
                     if I.atoms(t, 'pow') or any(a.func.__name__ in ('pow', 'exp', 'log') for a in I.all_atoms(t)):
                         probs.append(('alpha-gamma', 'alpha is gamma-corrected: %s' % t))
                         continue
                     L = order_lits(True)
-                    for g, v in I.cases(t):
+                    for g, v in guarded_slot(sa, slot):
                         G = list(g)
+                        if not I.in_order_vocabulary([l_ for l_ in G if l_.free_symbols & {ck}]):
+                            continue
                         if not (I.equal(v, ck) or v == 0):
                             und.append('alpha case `%s` yields %s' % (show_guard(g), v))
                         elif I.consistent(G + [L['lt'](v, 0)]):
@@ -852,26 +879,79 @@ def check_packing(ctx, U):
         except (Undecided, KeyError) as e:
             ctx.undecided(R, inst, 'output slots: %s' % e, VEC)
             chans = None
-    # ---- linear_to_srgb shape (max(f,0) then pow)
+    # ---- linear_to_srgb: a monotone transfer curve made of increasing pieces that do not step down where they meet
     inst = 'linear_to_srgb [%s]' % U.cfg
     if sg is not None:
         n += 1
         try:
             probs, und = [], []
-            for g, t in I.cases(sg.value('ret')):
-                if I.is_app(t, 'pow') and t.args[1].is_Rational and 0 < t.args[1] < 1:
-                    base = t.args[0]
-                    if not (I.equal(base, f) or base == 0):
-                        und.append('case `%s`: base %s' % (show_guard(g), base))
-                    elif I.consistent(list(g) + [I.flit('olt', base, 0)]):
-                        probs.append(('negative-base', 'case `%s` raises %s, which may be negative, to a fractional power' % (show_guard(g), base)))
-                elif t == 0:
-                    if I.consistent(list(g) + [I.flit('olt', 0, f)]):
+            pieces = []
+            for g, t in guarded(sg):
+                g = list(g)
+                lo_b, hi_b = -sp.oo, sp.oo
+                okg = True
+                for l_ in g:
+                    pp = I._lit_parts(l_)
+                    if pp is None or pp[0] not in ('olt', 'ole') or not ({pp[1], pp[2]} & {f}) or not (pp[1].is_Number or pp[2].is_Number):
+                        okg = False
+                        break
+                    _, x_, y_, neg_ = pp
+                    # x < y / x <= y ; negated: x >= y / x > y
+                    if x_ == f:
+                        if neg_:
+                            lo_b = max(lo_b, y_)
+                        else:
+                            hi_b = min(hi_b, y_)
+                    else:
+                        if neg_:
+                            hi_b = min(hi_b, x_)
+                        else:
+                            lo_b = max(lo_b, x_)
+                if not okg:
+                    und.append('case `%s` is not an interval of f' % show_guard(g))
+                    continue
+                if lo_b >= hi_b and not (lo_b == hi_b):
+                    continue
+                kind = None
+                pw = I.atoms(t, 'pow')
+                if t.is_Number:
+                    kind = 'constant'
+                    if t == 0 and hi_b > 0 and I.consistent(g + [I.flit('olt', 0, f)]):
                         probs.append(('zero', 'case `%s` returns 0 for positive input' % show_guard(g)))
-                else:
-                    und.append('case `%s` returns %s (exact sRGB curve or another form: not modelled)' % (show_guard(g), t))
-            report(ctx, R, inst, RKMATH, '%s|%s|linear_to_srgb|' % (R, RKMATH), probs, und, 'pow(max(f, 0), gamma) with 0 < gamma < 1')
-        except Undecided as e:
+                elif not I.all_atoms(t) and t.free_symbols <= {f} and sp.Poly(t, f).degree() <= 1:
+                    kind = 'linear'
+                    if sp.Poly(t, f).coeff_monomial(f) < 0:
+                        probs.append(('decreasing', 'case `%s`: %s decreases with f' % (show_guard(g), t)))
+                elif len(pw) == 1 and len(I.all_atoms(t)) == 1 and pw[0].args[1].is_Rational and pw[0].args[1] > 0 and pw[0].args[0] == f:
+                    kq = sp.Poly(t.xreplace({pw[0]: sp.Symbol('_P')}), sp.Symbol('_P'))
+                    if kq.degree() == 1 and kq.coeff_monomial(sp.Symbol('_P')).is_Rational:
+                        kind = 'power'
+                        if kq.coeff_monomial(sp.Symbol('_P')) < 0:
+                            probs.append(('decreasing', 'case `%s`: %s decreases with f' % (show_guard(g), t)))
+                        if lo_b < 0:
+                            probs.append(('negative-base', 'case `%s` raises f, which may be negative, to a fractional power' % show_guard(g)))
+                if kind is None:
+                    und.append('case `%s` returns %s: not a constant, a*f + b or k*pow(f, g) + m' % (show_guard(g), t))
+                    continue
+                pieces.append((lo_b, hi_b, t, g))
+            if not und:
+                pieces.sort(key=lambda p_: (p_[0], p_[1]))
+                val = lambda t_, B_: sp.N(t_.xreplace({f: B_}).replace(lambda z: I.is_app(z, 'pow'), lambda z: sp.Pow(z.args[0], z.args[1])), 40)
+                for p1, p2 in zip(pieces, pieces[1:]):
+                    if p1[1] != p2[0]:
+                        und.append('the pieces do not tile the input range (%s .. %s, then %s .. %s)' % (p1[0], p1[1], p2[0], p2[1]))
+                        break
+                    B_ = p1[1]
+                    left, right = val(p1[2], B_), val(p2[2], B_)
+                    if right < left - sp.Rational(1, 2 ** 12):
+                        probs.append(('not-monotone', 'at f = %s (%.7g) the curve steps down from %.6g (piece %s) to %.6g (piece %s): a brighter '
+                                      'linear value is encoded as a smaller one (8-bit codes %d -> %d); the pieces of a transfer curve must meet '
+                                      'without a downward step - this breakpoint does not belong to these two pieces'
+                                      % (B_, float(B_), float(left), p1[2], float(right), p2[2], round(255 * float(min(max(left, 0), 1))),
+                                         round(255 * float(min(max(right, 0), 1))))))
+            report(ctx, R, inst, RKMATH, '%s|%s|linear_to_srgb|' % (R, RKMATH), probs, und,
+                   '%d increasing pieces (%s) that meet without a downward step' % (len(pieces), ', '.join(str(p_[2]) for p_ in pieces)))
+        except (Undecided, sp.PolynomialError) as e:
             ctx.undecided(R, inst, str(e), RKMATH)
     # ---- linear_to_srgba8 = cvt_uint32(linear_to_srgba(c))
     inst = 'linear_to_srgba8 [%s]' % U.cfg
@@ -893,6 +973,61 @@ def only_reads(t, prefixes):
     return sorted(str(z) for z in t.free_symbols if not str(z).startswith(tuple(prefixes)))
 
 
+def rounding_amplification(U, slot_lo, slot_diff):
+    """constructor and operator() of pcg32_biased_float_distribution composed, every rounded operation k written X_k*(1+d_k):
+    the gain G_k = (d result / d d_k) / X_k is the factor by which the absolute rounding error of X_k reaches the result.
+    An X_k that can be denormal (absolute error up to 2^-150 whatever its size) must not have a gain above 1, otherwise that error
+    is blown up relative to the width of [lower, upper].  -> None | (kind, message) | 'reason it is undecided'"""
+    lo, hi = sym('lo'), sym('hi')
+    try:
+        scr = U.mod.function('K_pcg_ctor').summary(rounding=True)
+        sor = U.mod.function('K_pcg_call').summary(rounding=True)
+        M = scr.value(slot_diff)
+        ren = lambda e: e.xreplace({z: sp.Symbol('_c' + z.name[2:], real=True) for z in e.free_symbols if z.name.startswith('_d')})
+        ret = ren(sor.value('ret'))
+        w, rho = sp.Symbol('width', positive=True), sp.Symbol('rng', positive=True)
+        rhos = I.atoms(ret, prefix='uitofp_') or I.atoms(ret, prefix='sitofp_')
+        if len(rhos) != 1:
+            return 'generator output not identified in %s' % ret
+        comp = lambda e: e.xreplace({sym(slot_diff): M, sym(slot_lo): lo}).xreplace({rhos[0]: rho}).xreplace({hi: lo + w})
+        R_ = comp(ret)
+        ops = [(nm, comp(t)) for nm, t in scr.paths[0].fpvals if nm] + [('_c' + nm[2:], comp(ren(t))) for nm, t in sor.paths[0].fpvals if nm]
+        ds = [z for z in R_.free_symbols if z.name.startswith(('_d', '_c'))]
+        zero = {z: 0 for z in ds}
+        for nm, X in ops:
+            dk = [z for z in ds if z.name == nm]
+            if not dk:
+                continue
+            X0 = sp.cancel(sp.together(X.xreplace(zero)))
+            if X0 == 0:
+                continue
+            G = sp.cancel(sp.together(sp.diff(R_, dk[0]).xreplace(zero) / X0))
+            # can X be denormal?  X0 = c * width^a * rng^b over width >= 2^-126, rng >= 1
+            Px = sp.Poly(sp.expand(X0), w, rho) if not (X0.free_symbols - {w, rho}) else None
+            if Px is None or len(Px.terms()) != 1:
+                continue              # involves `lower` (the final sum) or is not a monomial: not scaled afterwards / not analysed
+            (a_, b_), c_ = Px.terms()[0]
+            if not (a_ >= 1 and c_.is_Rational and abs(c_) * sp.Rational(1, 2 ** 126) ** a_ < sp.Rational(1, 2 ** 126)):
+                continue
+            if G.free_symbols - {rho}:
+                return 'gain %s of the intermediate %s' % (G, X0)
+            Pg = sp.Poly(sp.expand(G), rho)
+            gmax = sum(abs(cc) * sp.Integer(2 ** 32) ** mm[0] for mm, cc in Pg.terms())
+            if gmax > 1:
+                return ('denormal-prescale', 'the rounded intermediate `%s` is smaller than the width of the range (it is denormal for widths '
+                        'below 2^%d, where it is rounded to a multiple of 2^-149 with up to 50%% relative error) and is afterwards multiplied '
+                        'by up to %s: that rounding error is scaled up with it, so draws overshoot upper by a sizeable fraction of the width; '
+                        'the 2^-32 factor has to be applied to the generator output (which is never denormal), not folded into the stored width'
+                        % (X0.xreplace({w: sp.Symbol('(upper-lower)')}), -126 - I_log2(abs(c_)), gmax))
+        return None
+    except (Undecided, KeyError, sp.PolynomialError) as e:
+        return 'rounding-amplification analysis: %s' % e
+
+
+def I_log2(q):
+    return log2_floor(q)
+
+
 def check_distributions(ctx, U):
     R = 'R-C07-5'
     n = 0
@@ -903,6 +1038,7 @@ def check_distributions(ctx, U):
     inst = '%s constructor [%s]' % (PCG, U.cfg)
     sc = U.summary(R, inst, 'K_pcg_ctor', RANDOM, banned_key=key(PCG, 'impure'))
     slot_lo = slot_diff = None
+    cdiff = sp.Integer(1)
     if sc is not None:
         n += 1
         try:
@@ -916,7 +1052,12 @@ def check_distributions(ctx, U):
             else:
                 slot_lo, slot_diff = los[0], others[0]
                 d = fl[slot_diff]
-                if I.equal(d, hi - lo):
+                cd_ = sp.cancel(d / (hi - lo)) if not unknown_atoms(d, ()) else None
+                if cd_ is not None and cd_.is_Rational and cd_ > 0:
+                    cdiff = cd_          # stored width = cdiff * (upper - lower); operator() must supply the rest of 2^-32
+                if cd_ is not None and cd_.is_Rational and cd_ > 0 and cd_ != 1:
+                    ctx.ok(R, inst, 'lower=%s upper=%s stored width=%s * (upper - lower)' % (los[0], his[0], cd_), RANDOM)
+                elif I.equal(d, hi - lo):
                     extra = only_reads(sp.Add(*[fl[k] for k in fl]), ('lo', 'hi', 'seed', 'seq'))
                     if extra:
                         ctx.violation(R, inst, 'constructor state depends on %s besides its arguments' % extra, RANDOM, key=key(PCG, 'impure'))
@@ -956,7 +1097,7 @@ def check_distributions(ctx, U):
                 probs.append(('form', 'result %s is not lower + t * diff (lower at %s, diff at %s%s)'
                               % (t, slot_lo, slot_diff, '; also reads %s' % stray if stray else '')))
             else:
-                g = sp.expand(c_d * 2 ** 32)
+                g = sp.expand(c_d * cdiff * 2 ** 32)
                 want = I.atom('uitofp_32', raw)
                 if I.equal(g, want) or I.equal(g, raw):
                     pass
@@ -968,8 +1109,15 @@ def check_distributions(ctx, U):
                         probs.append(('scale', 'the generator output is converted as a signed integer: t can be negative'))
                     else:
                         und.append('t = %s is not 2^-32 * rng() with rng() = %s' % (c_d, raw))
+            if not probs and not und:
+                amp = rounding_amplification(U, slot_lo, slot_diff)
+                if isinstance(amp, str):
+                    und.append(amp)
+                elif amp:
+                    probs.append(amp)
             report(ctx, R, inst, RANDOM, key(PCG + '::operator()', ''), probs, und,
-                   'lower + diff * (2^-32 * rng()), rng() = the pcg32 output of the own state; reads only its members')
+                   'lower + width * (2^-32 * rng()), rng() = the pcg32 output of the own state; reads only its members; no rounded '
+                   'intermediate that can be denormal is scaled up afterwards')
         except (Undecided, sp.PolynomialError) as e:
             ctx.undecided(R, inst, str(e), RANDOM)
     # ---- uniform_real_distribution
